@@ -19,6 +19,7 @@ core = simproc.core
 ID = "C08"
 LEVEL = "exploration"
 BATCH = 40
+PROBES_EXPECTED = ['probe:upgrade/sdkconfig', 'probe:upgrade/kconfig', 'probe:stored-default-checked', 'probe:context-free-mismatch', 'probe:promptless-entries', 'probe:used-instance', 'probe:default-injected']
 TIERS = {"quick": {"runs": 7000, "wall": 50}, "thorough": {"runs": 300000, "wall": 840}}
 RULE = ("each run draws a program (and for the upgrade clause an evolved version: changed defaults/conditions/ranges/prompt conditions, "
         "added/removed options), a policy (sdkconfig/kconfig), a prefix history reaching a configuration whose file F is written, optionally a "
